@@ -28,6 +28,7 @@ pub fn exec_oracle(kind: &str, fields: &[&str]) -> String {
         "S_C08N" => oracle_c08n(fields),
         "S_C08O" => oracle_c08o(fields),
         "S_C08D" => oracle_c08d(fields),
+        "S_C05" => oracle_c05(fields),
         "S_C06" => oracle_c06(fields),
         "S_C09" => oracle_c09(fields),
         "S_C13" => oracle_c13(fields),
@@ -3036,6 +3037,103 @@ fn oracle_c06(fields: &[&str]) -> String {
                     if !((inv[2] - a * dl).abs() < 1e-4) {
                         return format!("oracle FAIL {}: along the equator the geodesic is {} m, the equatorial arc {}", fields[1], inv[2], a * dl);
                     }
+                }
+            }
+        }
+    }
+    "oracle pass".to_string()
+}
+
+/// the geometry that defines a projection, by fourth order finite differences of the forward
+/// function, normalised by the meridian and parallel radii computed here
+fn oracle_c05(fields: &[&str]) -> String {
+    let kind = fields[0];
+    let def = unescape(fields[1]);
+    let extra: Vec<f64> = if fields[2].is_empty() { vec![] } else { fields[2].split(',').map(parse_f).collect() };
+    let pts = parse_data(fields[3]);
+    let ellps_name = def.split("ellps=").nth(1).map(|x| x.split(' ').next().unwrap_or("GRS80")).unwrap_or(if def.starts_with("webmerc") { "WGS84" } else { "GRS80" });
+    let Ok(e) = Ellipsoid::named(ellps_name) else { return format!("oracle FAIL ellipsoid of {def}") };
+    let (a, es) = (e.semimajor_axis(), e.eccentricity_squared());
+    let mut ctx = Minimal::default();
+    let op = match ctx.op(&def) {
+        Ok(op) => op,
+        Err(err) => return format!("oracle FAIL {def} not instantiable ({})", err_class(&err)),
+    };
+    let mut f = |lon: f64, lat: f64| -> Option<(f64, f64)> {
+        let mut d = [Coor4D([lon, lat, 0., 0.])];
+        match ctx.apply(op, Fwd, &mut d) {
+            Ok(1) if d[0][0].is_finite() && d[0][1].is_finite() => Some((d[0][0], d[0][1])),
+            _ => None,
+        }
+    };
+    if kind == "origin" {
+        let p = pts[0];
+        let Some((x, y)) = f(p[0], p[1]) else { return format!("oracle FAIL {def}: the projection centre cannot be projected") };
+        let tol = 2e-6;
+        if !((x - extra[0]).abs() < tol && (y - extra[1]).abs() < tol) {
+            return format!("oracle FAIL {def}: the projection centre ({}, {}) maps to ({x}, {y}), not to the false origin ({}, {})", p[0], p[1], extra[0], extra[1]);
+        }
+        return "oracle pass".to_string();
+    }
+    if kind == "tmerc-meridian" {
+        let (k0, lat0, x0, y0) = (extra[0], extra[1].to_radians(), extra[2], extra[3]);
+        for p in &pts {
+            let Some((x, y)) = f(p[0], p[1]) else { return format!("oracle FAIL {def}: a point of the central meridian cannot be projected") };
+            let arc = meridian_arc_quadrature(a, es, p[1]) - meridian_arc_quadrature(a, es, lat0);
+            if !((x - x0).abs() < 1e-6) || !((y - (y0 + k0 * arc)).abs() < 2e-6) {
+                return format!("oracle FAIL {def}: on the central meridian at latitude {} the easting is {x} (false easting {x0}) and the northing {y}, the scaled meridian arc from lat_0 gives {}", p[1], y0 + k0 * arc);
+            }
+        }
+    }
+    let h = 1e-4;
+    for p in &pts {
+        let (lon, lat) = (p[0], p[1].clamp(-1.5, 1.5));
+        let mut grab = |dlon: f64, dlat: f64| f(lon + dlon, lat + dlat);
+        let (Some(a1), Some(a2), Some(a3), Some(a4)) = (grab(-2.0 * h, 0.0), grab(-h, 0.0), grab(h, 0.0), grab(2.0 * h, 0.0)) else { continue };
+        let (Some(b1), Some(b2), Some(b3), Some(b4)) = (grab(0.0, -2.0 * h), grab(0.0, -h), grab(0.0, h), grab(0.0, 2.0 * h)) else { continue };
+        let d = |m2: f64, m1: f64, p1: f64, p2: f64| (m2 - 8.0 * m1 + 8.0 * p1 - p2) / (12.0 * h);
+        let (xl, yl) = (d(a1.0, a2.0, a3.0, a4.0), d(a1.1, a2.1, a3.1, a4.1));
+        let (xp, yp) = (d(b1.0, b2.0, b3.0, b4.0), d(b1.1, b2.1, b3.1, b4.1));
+        // (webmerc is DEFINED on the sphere of radius a, whatever the ellipsoid)
+        let es = if kind == "conformal-sphere" { 0.0 } else { es };
+        let w = (1.0 - es * lat.sin() * lat.sin()).sqrt();
+        let n = a / w;
+        let m = a * (1.0 - es) / (w * w * w);
+        // scale along the meridian and along the parallel, their angle, the area scale
+        let hh = xp.hypot(yp) / m;
+        let kk = xl.hypot(yl) / (n * lat.cos());
+        let cos_theta = (xl * xp + yl * yp) / (xl.hypot(yl) * xp.hypot(yp));
+        let area = (xl * yp - yl * xp) / (m * n * lat.cos());
+        match kind {
+            "conformal" | "conformal-sphere" | "tmerc-meridian" => {
+                let tol = if kind == "tmerc-meridian" { 2e-8 } else { extra[0] };
+                if !((hh / kk - 1.0).abs() < tol) || !(cos_theta.abs() < tol) || !(area > 0.0) {
+                    return format!("oracle FAIL {def} at ({lon}, {lat}): meridian scale {hh}, parallel scale {kk}, cosine of their angle {cos_theta:e}, area scale {area}");
+                }
+                if kind == "tmerc-meridian" && !((kk - extra[0]).abs() < 2e-8) {
+                    return format!("oracle FAIL {def}: scale {kk} on the central meridian at latitude {lat}, k_0 is {}", extra[0]);
+                }
+            }
+            "equal-area" => {
+                if !((area - 1.0).abs() < extra[0]) {
+                    return format!("oracle FAIL {def} at ({lon}, {lat}): area scale {area}");
+                }
+            }
+            _ => {
+                // a line or point of true scale
+                if !((kk - extra[0]).abs() < extra[1].max(2e-8)) || !((hh - extra[0]).abs() < extra[1].max(2e-8)) {
+                    return format!("oracle FAIL {def} at ({lon}, {lat}): scale {kk} along the parallel and {hh} along the meridian, expected {}", extra[0]);
+                }
+            }
+        }
+    }
+    if kind == "conformal-sphere" {
+        // webmerc is the spherical Mercator of radius a
+        for p in &pts {
+            if let Some((x, y)) = f(p[0], p[1]) {
+                let want = (a * p[0], a * (std::f64::consts::FRAC_PI_4 + p[1] / 2.0).tan().ln());
+                if !((x - want.0).abs() < 1e-8 * a.max(1.0)) || !((y - want.1).abs() < 1e-8 * a.max(1.0)) {
+                    return format!("oracle FAIL {def} at ({}, {}): ({x}, {y}), the spherical Mercator of radius a gives ({}, {})", p[0], p[1], want.0, want.1);
                 }
             }
         }
